@@ -6,8 +6,11 @@
    NaN post-processing).  Definitions only.
 
    Exact instance: distances are compared through an integer KEY
-   (dx, dy) |-> key dx dy  (dx*dx+dy*dy for EUCLIDEAN, (|dx|+|dy|)^2 for
-   MANHATTAN) which stands for the code's  float32(d)**2  (a float32) ; the three
+   key x1 x2 y1 y2 = _distance(x1, x2, y1, y2) as an integer (any metric: the model and
+   every theorem are generic in it); for EUCLIDEAN / MANHATTAN it is a function of the
+   coordinate differences, [metric_of_key]: dx*dx+dy*dy resp. (|dx|+|dy|)^2;
+   for GREAT_CIRCLE it depends on the coordinates themselves (C06/Metric.v);
+   the key which stands for the code's  float32(d)**2  (a float32) ; the three
    float comparisons of the code become
      dist_sqr < near_distance_square        key <  key          (or key < R at the initial value 2*max_distance^2)
      max_distance*max_distance >= nds       key <= M
@@ -59,12 +62,15 @@ Definition unset (p : Z * Z) : bool := fst p =? -1.
 
 Definition key_euclid (dx dy : Z) : Z := dx * dx + dy * dy.
 Definition key_manhattan (dx dy : Z) : Z := (Z.abs dx + Z.abs dy) * (Z.abs dx + Z.abs dy).
+(* a metric that only looks at coordinate differences (x = x1 - x2, y = y1 - y2 as in the code) *)
+Definition metric_of_key (k : Z -> Z -> Z) : Z -> Z -> Z -> Z -> Z :=
+  fun x1 x2 y1 y2 => k (x1 - x2) (y1 - y2).
 
 Record lst := mkL { pan : list (Z * Z); lp : list lpv; near : list (Z * Z) }.
 Record gst := mkG { gpan : list (Z * Z); gdist : list (list lpv); gout : list (list (option (Z * Z))) }.
 
 Section Prox.
-  Variable key : Z -> Z -> Z.          (* metric, on coordinate differences *)
+  Variable key : Z -> Z -> Z -> Z -> Z.   (* the metric: _distance(x1, x2, y1, y2) as an integer key *)
   Variable tie_up : Z -> bool.         (* float32(lp*lp) > lp^2 for this key *)
   Variables R M : ext.                 (* 2*max_distance^2 (strict) and max_distance^2 (inclusive) in key space *)
   Variables xc yc : list (option Z).   (* x coordinate of a column, y coordinate of a row; None = NaN (Dask halo) *)
@@ -81,7 +87,7 @@ Section Prox.
   (* _distance(xs[ty,tx], xs[r,c], ys[ty,tx], ys[r,c]) ** 2 *)
   Definition dist2 (ty tx r c : Z) : option Z :=
     match coord xc tx, coord xc c, coord yc ty, coord yc r with
-    | Some x1, Some x2, Some y1, Some y2 => Some (key (x1 - x2) (y1 - y2))
+    | Some x1, Some x2, Some y1, Some y2 => Some (key x1 x2 y1 y2)
     | _, _, _, _ => None
     end.
 
@@ -200,7 +206,7 @@ End Prox.
 Definition enc_lpv (v : lpv) : Z := match v with LUnset => -1 | LVal EInf => -2 | LVal (EFin k) => k end.
 Definition run_model (metric : Z) (ties : list Z) (R M : ext) (xc yc : list (option Z)) (values : list xv)
            (img : list (list xv)) : list (list (Z * (Z * Z))) :=
-  let key := if metric =? 2 then key_manhattan else key_euclid in
+  let key := metric_of_key (if metric =? 2 then key_manhattan else key_euclid) in
   let tie := fun k => existsb (Z.eqb k) ties in
   let g := process key tie R M xc yc values img in
   map (fun r => map (fun c => (enc_lpv (prox_of g r c),
